@@ -54,6 +54,8 @@ type InstCfg struct {
 	// PromoteReturn: the OnPromote callback returns at once instead of blocking on its context.
 	PromoteReturn bool `json:"promote_return"`
 	NoCallbacks   bool `json:"no_callbacks"`
+	// PromoteDrainUs: how long the OnPromote callback takes to return after its context was cancelled (winding down leader work).
+	PromoteDrainUs int64 `json:"promote_drain_us"`
 	// GateStopMetric: the metrics callback recording the leadership duration inside Stop's critical section (before
 	// the leader flag is cleared) blocks until a release_gate step: a scheduler gate that lets a timer fire while
 	// Stop holds the election's lock.
